@@ -16,6 +16,8 @@ import ast
 
 from ..astutil import call_name, calls, dotted, names_in, param_names, stmts, walk_local
 from ..core import AnalysisError, Mutant
+from .. import facts
+from ..exprnorm import same_expr, spec
 
 EXPLANATION = (
     "Structural characters of TreeNode.from_newick vs. the writer's illegal-label list; "
@@ -66,8 +68,13 @@ def run(ctx):
            "from_newick deletes every whitespace character (''.join(newick.split())) but to_newick writes labels "
            "containing blanks unchanged: the label 'a b' is looked up as 'ab' when the string is parsed again", tn.lineno)
     # distances: written after ':' read with float()
+    # the parser (from_newick itself or a private helper it calls) splits label and distance at ':' and converts with float()
+    scope = [fn] + [s.funcs[call_name(c)] for c in calls(fn) if call_name(c) in s.funcs and (call_name(c) or "").startswith("_")]
+    splits = [c for f_ in scope for c in ast.walk(f_) if isinstance(c, ast.Call) and isinstance(c.func, ast.Attribute) and c.func.attr == "split"
+              and len(c.args) == 1 and isinstance(c.args[0], ast.Constant) and c.args[0].value == ":"]
+    floats = [c for f_ in scope for c in ast.walk(f_) if isinstance(c, ast.Call) and call_name(c) == "float"]
     ctx.ob("R1.distance-syntax", TREE, "TreeNode.from_newick", "label, distance = s.split(':'); float(distance)",
-           "label_and_distance.split(':')" in ast.unparse(fn) and "float(distance)" in ast.unparse(fn)
+           bool(splits) and bool(floats)
            and "f'{label}:{self._distance}'" in ast.unparse(tn),
            "distance must follow the label after a colon in both directions", fn.lineno, nontrivial=False)
     ctx.ob("R1.terminator", TREE, "Tree.to_newick", "root string + ';' / strip trailing ';'",
@@ -157,10 +164,16 @@ def run(ctx):
     ctx.ob("R4.upgma-heights", UPGMA, "upgma", "height = dist_min / 2; branch = height - node_heights[...]",
            "height = dist_min / 2" in u and "(height - node_heights[i_min], height - node_heights[j_min])" in u
            and "node_heights[i_min] = height" in u, "merge height is half the cluster distance; branch lengths are height differences", 1)
-    n_ = ast.unparse(ctx.src(NJ).func("neighbor_joining"))
+    njf = ctx.src(NJ).func("neighbor_joining")
+    n_ = ast.unparse(njf)
+    joins = [c for c in ast.walk(njf) if isinstance(c, ast.Call) and call_name(c) == "TreeNode" and len(c.args) == 2 and isinstance(c.args[0], ast.Tuple)]
+    three = [c for c in joins if len(c.args[0].elts) == 3]
+    two = [c for c in joins if len(c.args[0].elts) == 2]
+    ok3 = len(three) == 1 and same_expr(three[0], "TreeNode((nodes[i_min], nodes[j_min], nodes[k]), (node_dist_i, node_dist_j, node_dist_k))") \
+        and spec("n_rem_nodes <= 3") in facts.facts_at(njf, three[0])
+    ok2 = len(two) == 1 and spec("n_rem_nodes > 3") in facts.facts_at(njf, two[0])
     ctx.ob("R4.nj-three-way-join", NJ, "neighbor_joining", "last three nodes joined at the root",
-           "TreeNode((nodes[i_min], nodes[j_min], nodes[k]), (node_dist_i, node_dist_j, node_dist_k))" in n_
-           and "if n_rem_nodes > 3:" in n_, "the final join must contain all three remaining nodes", 1)
+           ok3 and ok2, "binary joins while more than three nodes remain; the final join must contain all three remaining nodes", 1)
 
 
 MUTANTS = [
